@@ -80,6 +80,11 @@ CHECKS = {
             "DESIGN.md 6/C08",
             "Generated insertion sequences (3..60 clusters mixing raw and compressed, queues shorter and longer than the back-pressure limit) are created 4-6 times each under different perturbation plans (delays injected on the main, worker and writer threads through the public Progress trait) and visible CPU counts 1..15 (sched_setaffinity => 1..14 workers). Every run must terminate, return the same addresses, resolve every address to its own bytes in a fresh reader, verify, and lay clusters out inside the file without overlap (independent decoder). A case counts only when at least two of its runs wrote clusters in different file orders.",
             "Completion orders are sampled through delays, not enumerated; evidence reports the number of distinct orders per case. No hook needed (public Progress trait)."),
+    "C07": ("E4-schedules", "exploration",
+            "property-based testing over schedules: bounded exhaustive enumeration of harness-owned publication schedules of the real decoder + seeded perturbation of concurrent readers at cfg(jubako_verif) schedule points; value oracle",
+            "DESIGN.md 6/C07",
+            "S2 runs the real SeekableDecoder over a producer that releases chunks only when the harness says so and enumerates every interleaving of chunk releases and reader starts (2-3 readers, ranges ending on the chunk boundaries +-1, get_slice and stream reads): exact bytes, and every reader returns once everything is published (lost wake-up detection). S1 runs 2-16 reader threads with generated op lists over packs with more compressed clusters than cache slots and pool threads, under seeded delays injected at the publication, wake-up, slice, cache-lock and plain-reader-construction points: every read must return exactly the stored bytes and every thread must finish.",
+            "Interleavings finer than the hook points are sampled, not enumerated; x86 hardware; the ThreadSanitizer build of the same scenarios is part of the thorough tier when it is available. Needs the cfg(jubako_verif) hooks."),
 }
 
 NOT_YET = {
